@@ -128,17 +128,19 @@ _STACK_OK: dict[int, bool] = {}
 def stack_agrees_with_reference(repo: Repo) -> bool:
     key = id(repo)
     if key not in _STACK_OK:
+        from .objmodel import ClassModel  # noqa: PLC0415
         from .stackmodel import METHODS, check_method  # noqa: PLC0415
 
         ok = True
         try:
+            cm = ClassModel(repo, "src/pest/stack.py", "REP-INVARIANT premise", {"Generic": None})
             cls = repo.cls("src/pest/stack.py", "Stack")
             for q in METHODS:
                 fn = next((n for n in reversed(cls.body) if isinstance(n, ast.FunctionDef) and n.name == q), None)  # the last definition: earlier ones are @overload stubs
                 if fn is None:
                     ok = False
                     break
-                _n, bad = check_method(fn, f"src/pest/stack.py::Stack.{q}", q, 3, 1)
+                _n, bad = check_method(fn, f"src/pest/stack.py::Stack.{q}", q, 3, 1, cm)
                 if bad:
                     ok = False
                     break
@@ -298,6 +300,14 @@ def run_entry(check: Check, repo: Repo, entry: str, allowed: set[str], rule: str
         # demonstrated escape: it is decided on the program model (sa/ordabs.py COVERAGE) - discharged when the model
         # families that cover this entry executed the construct and it never raised, a violation when they show it
         # raising (the model point is the witness), undecided when they never reach it.
+        if site.kind == "recursion":
+            # not a may-raise guess: a function on a call-graph cycle reachable from the entry overflows the
+            # interpreter stack on deep enough input, whatever the model evaluates
+            escaping += 1
+            sig = f"{site.exc} from {site.kind} {site.expr} can escape"
+            chain_txt = " > ".join(c.split("::")[-1] for c in chain)
+            check.oblige(rule, site.func, sig, False, finding=Finding(rule, site.func, sig, f"{site.exc} raised at {site.func.split('::')[-1]} ({site.kind}: {site.expr}) is not handled on the call chain {chain_txt}", {"chain": chain, "entry": entry}))
+            continue
         cov = model_coverage(repo, entry)
         qual = site.func.split("::")[-1]
         got = cov.get((qual, site.kind, site.expr)) or (cov.get((qual, site.kind, site.expr[:80])) if site.kind == "call" else None)
@@ -346,9 +356,10 @@ def model_coverage(repo: Repo, entry: str) -> dict:
                 lambda: squashsem.check_squash(repo, "coverage", ["k", "K", "\u212a", "."], 2, False), lambda: opsem.check_ctx_managers(repo, "coverage"),
             ]
         else:
-            from . import failsem, linesem  # noqa: PLC0415
+            from . import failsem, linesem, rendersem  # noqa: PLC0415
 
-            suites = [lambda: linesem.check_error_context(repo, "coverage"), lambda: linesem.check_grammar_error_context(repo, "coverage"), lambda: failsem.check_fail(repo, "coverage", False)]
+            suites = [lambda: linesem.check_error_context(repo, "coverage"), lambda: linesem.check_grammar_error_context(repo, "coverage"), lambda: failsem.check_fail(repo, "coverage", False),
+                      lambda: rendersem.check_render(repo, "coverage")]
         for run in suites:
             try:
                 run()
